@@ -150,7 +150,9 @@ LONG_RUNS = ((130, 0.1), (40, 0.0))
 # (cfg, refused attempts, latency, attempts that get no answer at all)
 SLOW_RUNS = (({'idle_hold': 5, 'retry': 20}, 0, 8.0, 0), ({'idle_hold': 5, 'retry': 20}, 2, 8.0, 0), ({'idle_hold': 10, 'retry': 15}, 1, 12.0, 0),
              ({'idle_hold': 5, 'retry': 20, 'hold': 9}, 1, 19.0, 0), ({'idle_hold': 5, 'retry': 20}, 0, 8.0, 1), ({'idle_hold': 5, 'retry': 20}, 1, 8.0, 2),
-             ({'idle_hold': 30, 'retry': 30}, 0, 0.0, 1))
+             ({'idle_hold': 30, 'retry': 30}, 0, 0.0, 1),
+             # "reconnect at once": an idle-hold time of 0 is a timer of 0 seconds, not no timer
+             ({'idle_hold': 0, 'retry': 10}, 2, 0.0, 0), ({'idle_hold': 0, 'retry': 10}, 0, 0.0, 1))
 DEPTH = {'quick': 6, 'thorough': 8}
 
 
